@@ -265,8 +265,235 @@ pub fn exec(func: &str, a: &mut Args) -> String {
         // the free function through the real dispatcher: he1 pos1 he2 pos2
         "q_it_cc" => { let h1 = d3::v(a); let p1 = d3::iso(a); let h2 = d3::v(a); let p2 = d3::iso(a);
             res(query::intersection_test(&p1, &Cuboid::new(h1), &p2, &Cuboid::new(h2)), |x| b(*x).to_string()) }
+        // ---- follow-up 3: swapped composite-shape wrappers against the tabulated canonical sibling (ignored trailing args):
+        //      s1 compound pos12 [param] pinv canon
+        "w_cp_sc" => { let s1 = sh(a); let c = compound_of(&sh(a)); let m = d3::iso(a); let p = a.f();
+            nopanic(|| fcp(&details::closest_points_shape_composite_shape(&DefaultQueryDispatcher, &m, &*dynsh(&s1), &c, p))) }
+        "w_contact_sc" => { let s1 = sh(a); let c = compound_of(&sh(a)); let m = d3::iso(a); let p = a.f();
+            fcontact(&details::contact_shape_composite_shape(&DefaultQueryDispatcher, &m, &*dynsh(&s1), &c, p)) }
+        "w_distance_sc" => { let s1 = sh(a); let c = compound_of(&sh(a)); let m = d3::iso(a);
+            ff(details::distance_shape_composite_shape(&DefaultQueryDispatcher, &m, &*dynsh(&s1), &c)) }
+        "w_it_sc" => { let s1 = sh(a); let c = compound_of(&sh(a)); let m = d3::iso(a);
+            b(details::intersection_test_shape_composite_shape(&DefaultQueryDispatcher, &m, &*dynsh(&s1), &c)).into() }
+        // s1 compound pos12 vel12 target stop maxtoi pinv vinv canon
+        "w_cast_sc" => { let s1 = sh(a); let c = compound_of(&sh(a)); let m = d3::iso(a); let v = d3::v(a);
+            let opts = cast_opts(a.f(), a.b(), a.f());
+            fhit_opt(&details::cast_shapes_shape_composite_shape(&DefaultQueryDispatcher, &m, &v, &*dynsh(&s1), &c, opts)) }
+        // s1(ball|cuboid) halfspace pos12 vel12 target stop maxtoi pinv vinv canon
+        "w_cast_sh" => { let s1 = sh(a); let s2 = sh(a); let m = d3::iso(a); let v = d3::v(a);
+            let opts = cast_opts(a.f(), a.b(), a.f());
+            let n = match &s2 { Sh::HalfSpace(n) => *n, _ => panic!("halfspace expected") };
+            let g1 = dynsh(&s1);
+            fhit_opt(&details::cast_shapes_support_map_halfspace(&m, &v, g1.as_support_map().expect("support map"), &hs(&n), opts)) }
+        // s1 motion1 compound motion2 start end stop canon
+        "w_castnl_sc" => { let s1 = sh(a); let m1 = motion_in(a); let c = compound_of(&sh(a)); let m2 = motion_in(a);
+            let t0 = a.f(); let t1 = a.f(); let stop = a.b();
+            fhit_opt(&details::cast_shapes_nonlinear_shape_composite_shape(&DefaultQueryDispatcher, &m1, &*dynsh(&s1), &m2, &c, t0, t1, stop)) }
+        // triangle|segment cuboid pos12 [margin] pinv canon
+        "w_it_tc" => { let s1 = sh(a); let he = d3::v(a); let m = d3::iso(a);
+            match s1 { Sh::Triangle(p, q, r) => b(details::intersection_test_triangle_cuboid(&m, &Triangle::new(p, q, r), &Cuboid::new(he))).into(), _ => "bad".into() } }
+        "w_it_sgc" => { let s1 = sh(a); let he = d3::v(a); let m = d3::iso(a);
+            match s1 { Sh::Segment(p, q) => b(details::intersection_test_segment_cuboid(&m, &Segment::new(p, q), &Cuboid::new(he))).into(), _ => "bad".into() } }
+        "w_cp_tc" => { let s1 = sh(a); let he = d3::v(a); let m = d3::iso(a); let mg = a.f();
+            match s1 { Sh::Triangle(p, q, r) => nopanic(|| fcp(&details::closest_points_triangle_cuboid(&m, &Triangle::new(p, q, r), &Cuboid::new(he), mg))), _ => "bad".into() } }
+        // ---- NonlinearRigidMotion frame helpers
+        "nrm_append_translation" => { let m = motion_in(a); let t = d3::v(a); fmotion(&m.append_translation(t)) }
+        "nrm_prepend_translation" => { let m = motion_in(a); let t = d3::v(a); fmotion(&m.prepend_translation(t)) }
+        "nrm_append" => { let m = motion_in(a); let g = d3::iso(a); fmotion(&m.append(g)) }
+        "nrm_prepend" => { let m = motion_in(a); let g = d3::iso(a); fmotion(&m.prepend(g)) }
+        "nrm_position_at" => { let m = motion_in(a); let t = a.f(); d3::fiso(&m.position_at_time(t)) }
         f if f.contains("2_") => two::exec(f, a),
         _ => "nofn".into(),
+    }
+}
+
+// ------------------------------------------------------------------ follow-up 3 helpers
+use crate::p3::query::NonlinearRigidMotion;
+pub fn compound_of(s: &Sh) -> Compound {
+    match s { Sh::Compound(ps) => Compound::new(ps.iter().map(|(m, s)| (*m, SharedShape(std::sync::Arc::from(dynsh(s))))).collect()),
+              _ => panic!("compound expected") }
+}
+fn cast_opts(target: f64, stop: bool, maxtoi: f64) -> ShapeCastOptions {
+    ShapeCastOptions { max_time_of_impact: maxtoi, target_distance: target, stop_at_penetration: stop, compute_impact_geometry_on_penetration: true }
+}
+fn fhit_opt(h: &Option<ShapeCastHit>) -> String { match h { None => "none".into(), Some(h) => format!("hit {}", fhit(h)) } }
+fn hhit_opt(h: &Option<ShapeCastHit>) -> String {
+    match h { None => "none".into(), Some(h) => format!("hit {} {} {} {} {} {}", hx(h.time_of_impact), d3::hp(&h.witness1), d3::hp(&h.witness2),
+        d3::hv(&h.normal1), d3::hv(&h.normal2), h.status as u8) }
+}
+fn motion_in(a: &mut Args) -> NonlinearRigidMotion { let s = d3::iso(a); let c = d3::p(a); let l = d3::v(a); let w = d3::v(a); NonlinearRigidMotion::new(s, c, l, w) }
+fn hmotion(m: &NonlinearRigidMotion) -> String { format!("{} {} {} {}", d3::hiso(&m.start), d3::hp(&m.local_center), d3::hv(&m.linvel), d3::hv(&m.angvel)) }
+fn fmotion(m: &NonlinearRigidMotion) -> String { format!("{} {} {} {}", d3::fiso(&m.start), d3::fp(&m.local_center), d3::fv(&m.linvel), d3::fv(&m.angvel)) }
+fn hcp(c: &ClosestPoints) -> String {
+    match c { ClosestPoints::Intersecting => "intersecting".into(), ClosestPoints::Disjoint => "disjoint".into(),
+              ClosestPoints::WithinMargin(x, y) => format!("within {} {}", d3::hp(x), d3::hp(y)) }
+}
+/// a Compound of `n` closed-form parts (balls only when `balls_only`), spread around the origin, each with its own rotation
+pub fn gen_closed_compound(r: &mut Rng, lat: bool, n: usize, balls_only: bool) -> Sh {
+    Sh::Compound((0..n).map(|_| {
+        let s = if balls_only || r.bool() { Sh::Ball(if lat { *r.pick(&[0.25, 0.5, 1.0]) } else { r.uniform(0.1, 1.5) }) }
+                else { Sh::Cuboid(if lat { Vector::new(*r.pick(&[0.25, 0.5, 1.0]), *r.pick(&[0.5, 1.0]), *r.pick(&[0.25, 0.75])) } else { Vector::new(r.uniform(0.1, 1.5), r.uniform(0.1, 1.5), r.uniform(0.1, 1.5)) }) };
+        let t = if lat { Vector::new(quarter(r, 12), quarter(r, 12), quarter(r, 12)) } else { Vector::new(r.uniform(-3.0, 3.0), r.uniform(-3.0, 3.0), r.uniform(-3.0, 3.0)) };
+        let q = if lat { exact_quat(r) } else { d3::gen_quat(r, false) };
+        (iso_of(q, t), s)
+    }).collect())
+}
+/// follow-up 3, family (d): EVERY ordered pair of shape kinds (ball, cuboid, half-space, capsule = round segment, triangle,
+/// segment, Compound, TriMesh; half-space/half-space excluded: unsupported), relative rotation and translation both non-trivial,
+/// a non-trivial common world isometry; all five queries.  `mat` counts (kind1, kind2, query).
+pub fn gen_matrix(r: &mut Rng, lat: bool, v: &mut Vec<(String, String)>, mat: &mut std::collections::BTreeMap<(String, String), [usize; 5]>) {
+    let kind = |s: &Sh| -> String { hsh(s).split_whitespace().next().unwrap().to_string() };
+    let mk = |r: &mut Rng, k: u8| -> Sh { match k { 6 => gen_compound(r, lat), 7 => gen_trimesh(r, lat), k => gen_shape(r, lat, &[k]) } };
+    for k1 in 0..8u8 { for k2 in 0..8u8 {
+        if k1 == 2 && k2 == 2 { continue; }
+        let s1 = mk(r, k1); let s2 = mk(r, k2);
+        let (p1, p2, g) = loop {
+            let (p1, p2, _) = gen_poses(r, lat, &s1, &s2);
+            let glat = lat && r.bool(); let g = d3::gen_iso(r, glat, 100.0);
+            let rel = p1.inv_mul(&p2);
+            if !is_identity_rot(&rel) && !is_identity_rot(&g) && rel.translation.vector.norm() > 1e-6 { break (p1, p2, g); }
+        };
+        let par = gen_param(r, lat);
+        let sw = format!("{} {} {} {} {}", hsh(&s1), d3::hiso(&p1), hsh(&s2), d3::hiso(&p2), d3::hiso(&g));
+        v.push(("o_contact".into(), format!("{} {}", sw, hx(par))));
+        v.push(("o_cp".into(), format!("{} {}", sw, hx(par))));
+        v.push(("o_distance".into(), sw.clone()));
+        v.push(("o_it".into(), sw));
+        // a cast towards each other from a separated start
+        let reach = size(&s1) + size(&s2);
+        let dir = gen_normal(r, lat);
+        let mut q2 = p2; q2.translation.vector = p1.translation.vector + dir * (reach * if lat { 1.5 } else { r.uniform(1.2, 2.5) } + 0.25);
+        let speed = if lat { *r.pick(&[0.25, 1.0, 4.0]) } else { r.logu(1e-1, 1e1) };
+        let v1 = if lat { Vector::new(quarter(r, 8), quarter(r, 8), quarter(r, 8)) } else { d3::gen_v(r, false, 2.0) };
+        let v2 = v1 - dir * speed;
+        let target = if r.bool() { 0.0 } else if lat { 0.25 } else { r.logu(1e-2, 0.5) };
+        v.push(("o_cast".into(), format!("{} {} {} {} {} {} {} {} {} {}", hsh(&s1), d3::hiso(&p1), d3::hv(&v1), hsh(&s2), d3::hiso(&q2), d3::hv(&v2),
+            d3::hiso(&g), hx(target), b(r.bool()), hx(f64::MAX))));
+        let e = mat.entry((kind(&s1), kind(&s2))).or_insert([0; 5]);
+        for x in e.iter_mut() { *x += 1; }
+    } }
+}
+/// follow-up 3 generator: swapped wrappers (composite arms, shape casts, non-linear casts) and NonlinearRigidMotion helpers
+pub fn gen_wrap(r: &mut Rng, it: usize, v: &mut Vec<(String, String)>, cov: &mut std::collections::BTreeMap<(String, String, String), usize>) {
+    let lat = it % 2 == 0;
+    let kind = |s: &Sh| -> String { hsh(s).split_whitespace().next().unwrap().to_string() };
+    // ---- the four scalar / witness queries
+    for _ in 0..2 {
+        let s1 = match r.below(3) { 0 => Sh::Ball(if lat { *r.pick(&[0.25, 0.5, 1.0, 2.0]) } else { r.uniform(0.1, 2.0) }),
+                                    1 => Sh::HalfSpace(gen_normal(r, lat)), _ => Sh::Cuboid(d3::gen_he(r, lat).map(|x| x.min(3.0))) };
+        let n = 3 + r.below(5) as usize;     // 3..7 parts
+        let comp = gen_closed_compound(r, lat, n, matches!(s1, Sh::Cuboid(_)));
+        // pose of the compound in the frame of shape 1: non-trivial rotation, distance from overlapping to well separated
+        let q = if lat { exact_quat(r) } else { d3::gen_quat(r, false) };
+        let dir = gen_normal(r, lat);
+        let dist = if lat { quarter(r, 40).abs() } else { r.uniform(0.0, 9.0) };
+        let pos12 = iso_of(q, dir * dist);
+        let pinv = pos12.inverse();
+        let par = gen_param(r, lat);
+        let (g1, c) = (dynsh(&s1), compound_of(&comp));
+        let base = format!("{} {} {}", hsh(&s1), hsh(&comp), d3::hiso(&pos12));
+        let d = &DefaultQueryDispatcher;
+        let ccp = std::panic::catch_unwind(std::panic::AssertUnwindSafe(|| details::closest_points_composite_shape_shape(d, &pinv, &c, &*g1, par)));
+        if let Ok(ccp) = ccp { v.push(("w_cp_sc".into(), format!("{} {} {} {}", base, hx(par), d3::hiso(&pinv), hcp(&ccp)))); }
+        let cc = details::contact_composite_shape_shape(d, &pinv, &c, &*g1, par);
+        v.push(("w_contact_sc".into(), format!("{} {} {} {}", base, hx(par), d3::hiso(&pinv), hcontact_opt(&cc))));
+        let cd = details::distance_composite_shape_shape(d, &pinv, &c, &*g1);
+        v.push(("w_distance_sc".into(), format!("{} {} {}", base, d3::hiso(&pinv), hx(cd))));
+        let ci = details::intersection_test_composite_shape_shape(d, &pinv, &c, &*g1);
+        v.push(("w_it_sc".into(), format!("{} {} {}", base, d3::hiso(&pinv), b(ci))));
+        for f in ["closest_points", "contact", "distance", "intersection_test"] { *cov.entry((kind(&s1), "compound".into(), f.into())).or_insert(0) += 1; }
+        // ---- shape cast through the swapped composite wrapper: relative velocity mostly towards shape 1
+        let mut vel = -dir * if lat { *r.pick(&[0.5, 1.0, 2.0]) } else { r.logu(0.05, 20.0) } + d3::gen_v(r, lat, 0.3);
+        if r.below(8) == 0 { vel = Vector::zeros(); }
+        let target = if r.below(3) == 0 { if lat { 0.25 } else { r.uniform(0.01, 0.5) } } else { 0.0 };
+        let stop = r.bool(); let maxtoi = if r.below(4) == 0 { f64::MAX } else if lat { *r.pick(&[2.0, 8.0, 32.0]) } else { r.logu(0.1, 100.0) };
+        let opts = cast_opts(target, stop, maxtoi);
+        let vinv = -pos12.inverse_transform_vector(&vel);
+        let ch = details::cast_shapes_composite_shape_shape(d, &pinv, &vinv, &c, &*g1, opts);
+        v.push(("w_cast_sc".into(), format!("{} {} {} {} {} {} {} {}", base, d3::hv(&vel), hx(target), b(stop), hx(maxtoi), d3::hiso(&pinv), d3::hv(&vinv), hhit_opt(&ch))));
+        *cov.entry((kind(&s1), "compound".into(), "cast_shapes".into())).or_insert(0) += 1;
+    }
+    // ---- cast_shapes_support_map_halfspace
+    {
+        let s1 = if r.bool() { Sh::Ball(if lat { *r.pick(&[0.25, 0.5, 1.0, 2.0]) } else { r.uniform(0.1, 2.0) }) } else { Sh::Cuboid(d3::gen_he(r, lat).map(|x| x.min(3.0))) };
+        let n = gen_normal(r, lat); let s2 = Sh::HalfSpace(n);
+        let q = if lat { exact_quat(r) } else { d3::gen_quat(r, false) };
+        let dir = gen_normal(r, lat);
+        let pos12 = iso_of(q, dir * if lat { quarter(r, 40).abs() } else { r.uniform(0.0, 9.0) });
+        let pinv = pos12.inverse();
+        let mut vel = d3::gen_v(r, lat, 2.0); if r.below(8) == 0 { vel = Vector::zeros(); }
+        let target = if r.below(3) == 0 { if lat { 0.25 } else { r.uniform(0.01, 0.5) } } else { 0.0 };
+        let stop = r.bool(); let maxtoi = if r.below(4) == 0 { f64::MAX } else if lat { *r.pick(&[2.0, 8.0, 32.0]) } else { r.logu(0.1, 100.0) };
+        let vinv = -pos12.inverse_transform_vector(&vel);
+        let g1 = dynsh(&s1);
+        let ch = details::cast_shapes_halfspace_support_map(&pinv, &vinv, &hs(&n), g1.as_support_map().unwrap(), cast_opts(target, stop, maxtoi));
+        v.push(("w_cast_sh".into(), format!("{} {} {} {} {} {} {} {} {} {}", hsh(&s1), hsh(&s2), d3::hiso(&pos12), d3::hv(&vel), hx(target), b(stop), hx(maxtoi),
+            d3::hiso(&pinv), d3::hv(&vinv), hhit_opt(&ch))));
+        *cov.entry((kind(&s1), "halfspace".into(), "cast_shapes".into())).or_insert(0) += 1;
+    }
+    // ---- non-linear cast through the swapped composite wrapper (every other case without angular velocity: exact oracle)
+    if it % 3 == 0 {
+        let s1 = if r.bool() { Sh::Ball(if lat { *r.pick(&[0.5, 1.0]) } else { r.uniform(0.2, 1.5) }) } else { Sh::Cuboid(Vector::new(0.5, 1.0, 0.75)) };
+        let np = 3 + r.below(3) as usize;
+        let comp = gen_closed_compound(r, lat, np, true);
+        let rotating = it % 6 == 0;
+        let mk = |r: &mut Rng, t: Vector<Real>, lin: Vector<Real>| {
+            let q = if lat { exact_quat(r) } else { d3::gen_quat(r, false) };
+            NonlinearRigidMotion::new(iso_of(q, t), d3::gen_p(r, lat, 1.0), lin, if rotating { d3::gen_v(r, lat, 1.0) } else { Vector::zeros() })
+        };
+        let dir = gen_normal(r, lat); let dist = if lat { 6.0 } else { r.uniform(3.0, 9.0) };
+        let m1 = mk(r, Vector::zeros(), dir * 0.5);
+        let sp2 = if lat { 1.0 } else { r.uniform(0.2, 2.0) };
+        let m2 = mk(r, dir * dist, -dir * sp2);
+        let (t0, t1) = (0.0, if lat { 8.0 } else { r.uniform(1.0, 12.0) }); let stop = r.bool();
+        let (g1, c) = (dynsh(&s1), compound_of(&comp));
+        let ch = details::cast_shapes_nonlinear_composite_shape_shape(&DefaultQueryDispatcher, &m2, &c, &m1, &*g1, t0, t1, stop);
+        v.push(("w_castnl_sc".into(), format!("{} {} {} {} {} {} {} {}", hsh(&s1), hmotion(&m1), hsh(&comp), hmotion(&m2), hx(t0), hx(t1), b(stop), hhit_opt(&ch))));
+        *cov.entry((kind(&s1), "compound".into(), "cast_shapes_nonlinear".into())).or_insert(0) += 1;
+    }
+    // ---- the remaining pairwise mirrored wrappers (triangle / segment first, cuboid second)
+    {
+        let he = d3::gen_he(r, lat).map(|x| x.min(4.0));
+        let tri = gen_shape(r, lat, &[4]); let seg = gen_shape(r, lat, &[5]);
+        for (s1, f) in [(&tri, "w_it_tc"), (&seg, "w_it_sgc"), (&tri, "w_cp_tc")] {
+            // a point of the triangle / segment coincides with a point of the cuboid (overlap), then in 2/3 of the cases
+            // the cuboid is pushed away along a random direction by 0 .. 2 box diagonals (touching, near miss, far)
+            let (_, _, mut pos12) = gen_poses(r, lat, s1, &Sh::Cuboid(he));
+            let (u, w) = if lat { (*r.pick(&[0.0, 0.25, 0.5, 1.0]), *r.pick(&[0.0, 0.5, 1.0])) } else { (r.unit(), r.unit()) };
+            let on1 = match s1 { Sh::Triangle(p, q, t) => p + (q - p) * (u * (1.0 - w * 0.5)) + (t - p) * ((1.0 - u) * (1.0 - w * 0.5)), Sh::Segment(p, q) => p + (q - p) * u, _ => Point::origin() };
+            let in2 = if lat { Vector::new(he.x * *r.pick(&[-1.0, 0.0, 0.5]), he.y * *r.pick(&[-0.5, 0.0, 1.0]), he.z * *r.pick(&[-1.0, 0.0, 1.0])) }
+                      else { Vector::new(he.x * r.uniform(-1.0, 1.0), he.y * r.uniform(-1.0, 1.0), he.z * r.uniform(-1.0, 1.0)) };
+            let push = match r.below(3) { 0 => 0.0, _ => if lat { *r.pick(&[0.25, 0.5, 1.0, 2.0]) } else { r.uniform(0.0, 2.0) } } * he.norm();
+            let dirp = gen_normal(r, lat);
+            pos12.translation.vector = on1.coords - pos12.rotation * in2 + dirp * push;
+            let pinv = pos12.inverse();
+            let cub = Cuboid::new(he);
+            let base = format!("{} {} {}", hsh(s1), d3::hv(&he), d3::hiso(&pos12));
+            match (s1, f) {
+                (Sh::Triangle(p, q, t), "w_it_tc") => { let c = details::intersection_test_cuboid_triangle(&pinv, &cub, &Triangle::new(*p, *q, *t));
+                    v.push((f.into(), format!("{} {} {}", base, d3::hiso(&pinv), b(c)))); }
+                (Sh::Segment(p, q), _) => { let c = details::intersection_test_cuboid_segment(&pinv, &cub, &Segment::new(*p, *q));
+                    v.push((f.into(), format!("{} {} {}", base, d3::hiso(&pinv), b(c)))); }
+                (Sh::Triangle(p, q, t), _) => { let mg = gen_param(r, lat);
+                    let c = std::panic::catch_unwind(std::panic::AssertUnwindSafe(|| details::closest_points_cuboid_triangle(&pinv, &cub, &Triangle::new(*p, *q, *t), mg)));
+                    if let Ok(c) = c { v.push((f.into(), format!("{} {} {} {}", base, hx(mg), d3::hiso(&pinv), hcp(&c)))); } }
+                _ => {}
+            }
+            *cov.entry((kind(s1), "cuboid".into(), (if f == "w_cp_tc" { "closest_points" } else { "intersection_test" }).into())).or_insert(0) += 1;
+        }
+    }
+    // ---- NonlinearRigidMotion helpers
+    {
+        let m = NonlinearRigidMotion::new(d3::gen_iso(r, lat, 50.0), d3::gen_p(r, lat, 5.0), d3::gen_v(r, lat, 5.0), d3::gen_v(r, lat, 3.0));
+        let tra = d3::gen_v(r, lat, 20.0); let g = d3::gen_iso(r, lat, 50.0);
+        v.push(("nrm_append_translation".into(), format!("{} {}", hmotion(&m), d3::hv(&tra))));
+        v.push(("nrm_prepend_translation".into(), format!("{} {}", hmotion(&m), d3::hv(&tra))));
+        v.push(("nrm_append".into(), format!("{} {}", hmotion(&m), d3::hiso(&g))));
+        v.push(("nrm_prepend".into(), format!("{} {}", hmotion(&m), d3::hiso(&g))));
+        let t = if lat { *r.pick(&[0.0, 0.25, 1.0, 2.0]) } else { r.uniform(0.0, 5.0) };
+        let mm = if r.below(4) == 0 { NonlinearRigidMotion::new(m.start, m.local_center, m.linvel, Vector::zeros()) } else { m };
+        let e = Isometry::new(mm.linvel * t, mm.angvel * t);
+        v.push(("nrm_position_at".into(), format!("{} {} {}", hmotion(&mm), hx(t), d3::hiso(&e))));
     }
 }
 
@@ -763,6 +990,16 @@ pub fn gen(r: &mut Rng, thorough: bool) -> Vec<(String, String)> {
         v.push(("q_distance".into(), sw.clone()));
         v.push(("q_it".into(), sw.clone()));
         v.push(("q_cp".into(), format!("{} {}", sw, hx(par))));
+    }
+    // ---- follow-up 3 (appended last): swapped composite / cast / non-linear wrappers, NonlinearRigidMotion helpers
+    let mut cov: std::collections::BTreeMap<(String, String, String), usize> = Default::default();
+    for it in 0..n { gen_wrap(r, it, &mut v, &mut cov); }
+    if std::env::var("VERIF_DBG").is_ok() { for ((k1, k2, f), c) in &cov { eprintln!("C03 wrap coverage: {} / {} {} = {}", k1, k2, f, c); } }
+    // ---- family (d): the full ordered pair-kind x query matrix
+    let mut mat: std::collections::BTreeMap<(String, String), [usize; 5]> = Default::default();
+    for rep in 0..(if thorough { 20 } else { 2 }) { gen_matrix(r, rep % 2 == 0, &mut v, &mut mat); }
+    if std::env::var("VERIF_DBG").is_ok() {
+        for ((k1, k2), c) in &mat { eprintln!("C03 matrix (contact cp distance it cast): {} / {} = {} {} {} {} {}", k1, k2, c[0], c[1], c[2], c[3], c[4]); }
     }
     v
 }
